@@ -311,7 +311,15 @@ def replay_file(pid, path):
     if line[1] == "grouping":
         import emit_props
         return emit_props.replay_grouping(pid, path)
-    if line[1] == "tc":
+    if line[1] == "lowercompound":
+        import tc_props
+        r = tc_props.finish_lower_compound({"statement": "", "model": {}}, line[2], os.path.join(common.WORK_DIR, pid, "replay"))
+        say(r.get("native", ""))
+        if r.get("status") == "violated":
+            say(f"VIOLATION property={pid} replay={path}")
+            return 1
+        return 0
+    if line[1] in ("tc", "compat"):
         import tc_props
         bad = tc_props.replay_tc(pid, line)
         if bad:
